@@ -199,6 +199,10 @@ def reflection(ctx, rng, idx):
             dtc_ = np.asarray(disc.calc_timestep(f, 1.0), float)
         if not (np.all(np.isfinite(dtc_)) and np.max(dtc_) <= 30.0 * np.min(dtc_)):
             dirs = {}
+        # ... and not for Burgers data that change sign: with local steps the sonic faces (uL + uR ~ 0, where the upwind flux switches sides)
+        # turn an ulp of difference between the twins into an O(1) one, which no finite perturbation measures (thorough-tier witness)
+        if spec.mname == "burgers" and np.min(spec.prim[0]) < 0.0 < np.max(spec.prim[0]):
+            dirs = {}
     ctx.describe(integrator=iname, cfl=cfl, nstep=nstep, directives=dirs, scheme_object_shared_with_twin=share, **spec.desc())
     r1 = disc.rhs(f); r2 = unmirror(disc2.rhs(f2), spec.mname)
     if not (_finite(r1) and _finite(r2)):
@@ -283,6 +287,10 @@ def units(ctx, rng, idx):
         with probes.quiet():
             dtc_ = np.asarray(disc.calc_timestep(f, 1.0), float)
         if not (np.all(np.isfinite(dtc_)) and np.max(dtc_) <= 30.0 * np.min(dtc_)):
+            dirs = {}
+        # ... and not for Burgers data that change sign: with local steps the sonic faces (uL + uR ~ 0, where the upwind flux switches sides)
+        # turn an ulp of difference between the twins into an O(1) one, which no finite perturbation measures (thorough-tier witness)
+        if spec.mname == "burgers" and np.min(spec.prim[0]) < 0.0 < np.max(spec.prim[0]):
             dirs = {}
     ctx.describe(integrator=iname, cfl=cfl, nstep=nstep, scale_density=a, scale_velocity=b, scale_length=l, scale_section_area=sa, directives=dirs, **spec.desc())
     r1 = disc.rhs(f); r2 = [x / sc for x, sc in zip(disc2.rhs(f2), rs)]
